@@ -625,6 +625,25 @@ theorem validator_timeline_is_slice (durs : List Nat) (R ts tcF tsbd fuel : Nat)
   refine ⟨k, ?_⟩
   rw [hl, timelineSegments_eq_expand s rest t0 hs hwf, ← hl, hk]
 
+/-- the live timeline has to cover the time-shift buffer (representation.py:321-326): a timeline
+whose advertised durations add up to the buffer depth – what `generateSegmentTimeline` produces,
+its loop runs `while dur < timeShiftBufferDepth·timescale` – is accepted … -/
+theorem validator_accepts_timeline_depth (live : Bool) (targetUs : Option Int) (tsbdUs : Int) (ts : Nat)
+    (entries : List (Int × Int))
+    (h : tsbdUs * ts ≤ ((entries.map (·.2)).sum) * 1000000) :
+    timelineDepthErrs live targetUs tsbdUs ts entries = [] := by
+  unfold timelineDepthErrs
+  split <;> simp [h]
+
+/-- … and **a gap that leaves less than the buffer depth** is reported at the Representation even
+when the segment after the gap is never fetched -/
+theorem validator_detects_short_timeline (tsbdUs : Int) (ts : Nat) (entries : List (Int × Int))
+    (h : ((entries.map (·.2)).sum) * 1000000 < tsbdUs * ts) :
+    timelineDepthErrs true none tsbdUs ts entries = [RepErr.timelineShort] := by
+  unfold timelineDepthErrs
+  have : ¬ (tsbdUs * ts ≤ ((entries.map (·.2)).sum) * 1000000) := by omega
+  simp [this]
+
 /-! ## 7. across a manifest refresh -/
 
 /-- **availabilityStartTime changed on a later manifest** -/
@@ -745,6 +764,11 @@ example : validateSegment { exCtx with optEncrypted := true, infoEncrypted := tr
 example : located (repPass exCtx none (fetchAll
     ([(4800, 960), (6720, 960)].map (timeExp 10)) [exObs 6 4800, exObs 8 6720])) = [(1, SegErr.seqNum)] := by
   decide
+
+/-- 30 s buffer at 240 Hz: eight 960-tick entries cover it (7680 ≥ 7200), seven do not -/
+example : timelineDepthErrs true none 30000000 240 (sliceG [960, 960, 960, 960] 3840 5 8) = [] := by decide
+example : timelineDepthErrs true none 30000000 240 (sliceG [960, 960, 960, 960] 3840 5 7)
+    = [RepErr.timelineShort] := by decide
 
 /-- init segment as served, and with `mvex` (→ also `trex`) removed -/
 def exInit (moov : List String) : InitObs :=
